@@ -93,7 +93,9 @@ def fixed_findings() -> list[dict]:
         if not p.exists():
             continue
         for f in json.loads(p.read_text()).get("fixed", []):
-            if "C19" in f.get("properties", [f.get("property")]) and isinstance(f.get("witness"), dict):
+            w = f.get("witness")
+            # another property's fixed finding may list C19 as co-owner with a witness in ITS case format
+            if "C19" in f.get("properties", [f.get("property")]) and isinstance(w, dict) and w.get("fam") in F.FAMILIES:
                 out.append(f)
     return out
 
@@ -121,6 +123,8 @@ def branches(c: dict, obs: str) -> list[str]:
             t.append("skip:symbolic_dims")
         if c.get("mag", 1.0) != 1.0 and c["dt"] == "f32":
             t.append("skip:low_magnitude_rows")
+            if c["eps"] is None and f == "fired":
+                t.append(f"skip:{c['kind']}:default_epsilon_on_low_magnitude_rows")
     elif fam == "gelu":
         t += [f"gelu:{c['form']}:{f}", f"gelu:pert={c['pert']}"]
     elif fam == "biasgelu":
@@ -131,6 +135,13 @@ def branches(c: dict, obs: str) -> list[str]:
             t.append("fmm:mixed_rank")
             if c["perm"] is None:
                 t.append("fmm:mixed_rank_permless")
+                tr = c.get("xrank") if c["kind"] == "t1" else c.get("yrank") if c["kind"] == "t2" else None
+                if tr is not None:
+                    t.append(f"fmm:permless_{c['kind']}_transposed_rank{'2' if tr == 2 else 'ge3'}")
+        if c["perm_kind"] == "bswap" and c["kind"] in ("t1", "t2") and len(c["perm"] or []) >= 4:
+            i_ = c["inner"] or {}
+            if not (i_.get("transBatchA") if c["kind"] == "t1" else i_.get("transBatchB")):
+                t.append("fmm:batch_permuting_swap_on_basic_rule")
         if "transBatch" in obs and fired(obs) and (c["inner"] or {}).get("transBatchA") != 1 and (c["inner"] or {}).get("transBatchB") != 1:
             t.append("fmm:batch_rule_fired")
     elif fam == "rope":
@@ -145,7 +156,7 @@ def branches(c: dict, obs: str) -> list[str]:
     elif fam == "sdpa":
         t += [f"sdpa:kpat={c['kpat']}", f"sdpa:mask={int(c['mask'] != 'none')}", f"sdpa:scale_attr={int('scale=' in obs)}"]
     elif fam == "mha":
-        t += [f"mha:{obs.split(' ')[0]}", f"mha:past={int(c['past'])}", f"mha:rotary={int(bool(c.get('rotary')))}",
+        t += [f"mha:{obs.split(' ')[0]}", f"mha:past={int(c['past'])}", f"mha:rotary={int(bool(c.get('rotary')))}", f"mha:cross={int(bool(c.get('cross')))}",
               "mha:mask=" + ("none" if c["mask"] == "none" else "expand" if "@Expand" in obs else "direct" if ",mask," in obs else "rejected")]
     elif fam == "pipe":
         t += [f"pipe:{c['q_proj']}", f"pipe:{obs.split(' ')[0]}"]
@@ -160,15 +171,16 @@ REQUIRED_BRANCHES = [
     "rms:fired", "rms:refused", "rms:cast_in=1", "rms:cast_out=1", "rms:scale_cast=1", "rms:mul_order=0", "rms:mul_order=1",
     "rms:scale_cast_changes_type", "rms:scale_rank_gt_x", "rms:eps=m11", "rms:eps=input",
     "skip:layer:none:fired", "skip:layer:pre:fired", "skip:layer:post:fired", "skip:rms:none:fired", "skip:rms:pre:fired",
-    "skip:rms:post:fired", "skip:symbolic_dims", "skip:unknown_dims", "skip:low_magnitude_rows",
+    "skip:rms:post:fired", "skip:symbolic_dims", "skip:unknown_dims", "skip:low_magnitude_rows", "skip:layer:default_epsilon_on_low_magnitude_rows",
     "gelu:tanh:fired", "gelu:erf:fired", "gelu:eg1:fired", "gelu:eg2:fired", "gelu:pert=tol", "gelu:pert=far",
     "biasgelu:(a,b)", "biasgelu:(b,a)", "biasgelu:refused", "softmax:count=1", "softmax:count=0",
     "fmm:div:fired", "fmm:mt:fired", "fmm:t1:fired", "fmm:t2:fired", "fmm:t1:refused", "fmm:t2:refused", "fmm:mixed_rank",
-    "fmm:mixed_rank_permless", "fmm:batch_rule_fired", "fmm:perm=bswap", "fmm:perm=none",
+    "fmm:mixed_rank_permless", "fmm:permless_t1_transposed_rank2", "fmm:permless_t1_transposed_rankge3",
+    "fmm:permless_t2_transposed_rank2", "fmm:permless_t2_transposed_rankge3", "fmm:batch_rule_fired", "fmm:perm=bswap", "fmm:perm=none",
     "rope:count=1/1/0", "rope:count=1/1/1", "rope:count=1/0/0", "rope:count=0/0/0", "rope:cast16", "rope:pos_const",
     "rope:pos_rank=1", "rope:odd", "rope:expand",
     "sdpa:kpat=1", "sdpa:kpat=2", "sdpa:kpat=3", "sdpa:mask=1", "sdpa:scale_attr=0", "sdpa:scale_attr=1",
-    "mha:count=1/1/0", "mha:count=1/0/1", "mha:count=1/0/0", "mha:rotary=1", "mha:mask=expand", "mha:mask=direct",
+    "mha:count=1/1/0", "mha:count=1/0/1", "mha:count=1/0/0", "mha:rotary=1", "mha:cross=1", "mha:mask=expand", "mha:mask=direct",
     "mha:mask=rejected",
     "pipe:none", "pipe:scale", "pipe:bias", "pipe:scale_bias", "pipe:bias_scale", "pipe:count=1/0/0/0/0",
     "gqa:fired", "gqa:refused", "gqa:miss=il_both", "gqa:miss=mask_op",
@@ -398,7 +410,8 @@ def main(run: core.Run) -> None:
     for name, fam in F.FAMILIES.items():
         got = 0
         tries = 0
-        want = min(per_fam, 600) if name == "gqa" else per_fam  # the repo's script builder is ~10x slower per case
+        # families whose model has many small branches get more (cheap) cases; gqa's script builder is ~10x slower
+        want = min(per_fam, 600) if name == "gqa" else int(per_fam * {"fmm": 2.0, "skip": 1.5, "rms": 1.3}.get(name, 1.0))
         while got < want and tries < want * 6:
             tries += 1
             c = fam.gen(run.rng)
